@@ -120,6 +120,16 @@ def run(ctx, chk):
                     bad is None, i.loc, '%s: revert at %s %s' % (f.name, fmt_loc(i.loc), 'is followed by a failure return on all paths'
                                                                 if bad is None else 'can reach the success / non-constant return at %s' % fmt_loc(bad)),
                     func=f.name)
+    # the mode handed to dot-segment removal: relative exactly for references without scheme, authority and leading "/"
+    # (obligations shared with C08; a reference wrongly treated as absolute loses its leading ".." run)
+    chk.rule('relative-flag', 'the mode argument of dot-segment removal is true exactly for relative-path references', floor=2)
+    from . import c08
+    from ..report import Check
+    tmp = Check('tmp', tier=chk.tier)
+    c08.run(ctx, tmp)
+    for o in tmp.obls:
+        if o.rule == 'relative-flag':
+            chk.obls.append(o)
     chk.analysed['reachable_functions'] = nfun
     chk.analysed['dot_removal_sites'] = rule_dot_removal(ctx, chk, {'essential-dot': 'essential-dot', 'updir-kept': 'updir-kept',
                                                                      'nonempty-relative': 'nonempty-relative'})
